@@ -165,7 +165,7 @@ def encode(s, prods, nts, term_ids, toks, n, tag, kinds, M=4):
                         if not ok:
                             continue
                         cond = z3.And(conds) if len(conds) > 1 else (conds[0] if conds else z3.BoolVal(True))
-                        val = build_value(p, sp, srt, rec_of, kinds, I, NONE_SLOT, M)
+                        val = build_value(p, sp, srt, rec_of, kinds, I, NONE_SLOT, M, (i, j))
                         if val is None:
                             continue
                         cases.append((cond, val))
@@ -178,19 +178,30 @@ def encode(s, prods, nts, term_ids, toks, n, tag, kinds, M=4):
                 cnt = z3.Int(f"{tag}N_{A}_{i}_{j}")
                 slots = [(z3.Int(f"{tag}L{r}_{A}_{i}_{j}"), z3.Int(f"{tag}H{r}_{A}_{i}_{j}"), z3.Int(f"{tag}Y{r}_{A}_{i}_{j}"))
                          for r in range(M)]
-                for cond, (vk, vc, vs) in cases:
-                    eqs = [kind == vk, cnt == vc]
+                self_lo = z3.Int(f"{tag}SL_{A}_{i}_{j}")
+                self_hi = z3.Int(f"{tag}SH_{A}_{i}_{j}")
+                for cond, (vk, vc, vs, (vsl, vsh)) in cases:
+                    eqs = [kind == vk, cnt == vc, self_lo == vsl, self_hi == vsh]
                     for r in range(M):
                         eqs += [slots[r][0] == vs[r][0], slots[r][1] == vs[r][1], slots[r][2] == vs[r][2]]
                     s.add(z3.Implies(cond, z3.And(eqs)))
-                R[A][(i, j)] = (kind, cnt, slots)
+                R[A][(i, j)] = (kind, cnt, slots, (self_lo, self_hi))
     e = Encoded()
     e.D, e.R, e.sort, e.order, e.nullable = D, R, srt, order, nul
     return e
 
 
-def build_value(p, sp, srt, rec_of, kinds, I, NONE_SLOT, M):
-    """Returns (kind_expr, cnt_expr, [slot exprs]*M) for production p with split sp, or None if it cannot apply."""
+def build_value(p, sp, srt, rec_of, kinds, I, NONE_SLOT, M, span):
+    """Returns (kind_expr, cnt_expr, [slot exprs]*M, self span) for production p with split sp, or None if it cannot apply.
+    A sub-expression slot holds the CANONICAL span of the child (its own span, looking through pass-through productions such as
+    parentheses or wrapper nonterminals), so two grammars that wrap children differently still agree on the child spans."""
+    own = (I(span[0]), I(span[1]))
+
+    def canon(pos):
+        r = rec_of(p.rhs[pos], sp[pos])
+        if r is None:
+            return None
+        return r[3]
     act = p.action
     k = act[0]
 
@@ -210,21 +221,25 @@ def build_value(p, sp, srt, rec_of, kinds, I, NONE_SLOT, M):
             if r is None:
                 return None
             return r[2][0]
-        lo, hi = sp[pos]
-        return (I(lo), I(hi), I(-1))
+        c = canon(pos)
+        if c is None:
+            return None
+        return (c[0], c[1], I(-1))
 
     if k == "pass":
         r = rec_of(p.rhs[act[1]], sp[act[1]])
         if r is None:
             return None
-        return (r[0], r[1], list(r[2]))
+        return (r[0], r[1], list(r[2]), r[3])
     if k == "leaf":
         lo, _ = sp[act[2]]
-        return (I(kinds.id(act[1])), I(1), pad([(I(-1), I(-1), I(lo))]))
+        return (I(kinds.id(act[1])), I(1), pad([(I(-1), I(-1), I(lo))]), own)
     if k == "pair":
         klo, _ = sp[act[1]]
-        vlo, vhi = sp[act[2]]
-        return (I(kinds.id(PAIR)), I(1), pad([(I(vlo), I(vhi), I(klo))]))
+        c = canon(act[2])
+        if c is None:
+            return None
+        return (I(kinds.id(PAIR)), I(1), pad([(c[0], c[1], I(klo))]), own)
     if k in ("node", "list"):
         kind = I(kinds.id(act[1] if k == "node" else LIST))
         parts = act[2] if k == "node" else act[1]
@@ -241,8 +256,10 @@ def build_value(p, sp, srt, rec_of, kinds, I, NONE_SLOT, M):
         for kind_a, pos in parts:
             if kind_a in ("sub", "tok", "item"):
                 if kind_a == "sub":
-                    lo, hi = sp[pos]
-                    sl = (I(lo), I(hi), I(-1))
+                    c = canon(pos)
+                    if c is None:
+                        return None
+                    sl = (c[0], c[1], I(-1))
                 elif kind_a == "tok":
                     lo, _ = sp[pos]
                     sl = (I(-1), I(-1), I(lo))
@@ -266,7 +283,7 @@ def build_value(p, sp, srt, rec_of, kinds, I, NONE_SLOT, M):
                 rec = elems_of(pos)
                 if rec is None:
                     return None
-                _, ecnt, eslots = rec
+                ecnt, eslots = rec[1], rec[2]
                 off = I(known) if symbolic is None else symbolic
                 new = []
                 for r in range(M):
@@ -280,7 +297,7 @@ def build_value(p, sp, srt, rec_of, kinds, I, NONE_SLOT, M):
             else:
                 raise EncodingError(f"unknown action part {kind_a}")
         total = I(known) if symbolic is None else symbolic
-        return (kind, total, cur)
+        return (kind, total, cur, own)
     raise EncodingError(f"unknown action {act}")
 
 
